@@ -64,6 +64,7 @@ def rec_op_class():
         def calculate_B_dimension_wise(self, data, stripes, levels):
             b = super().calculate_B_dimension_wise(data, stripes, levels)
             self.rec.append(("B", np.array(b)))
+            self._last_b = b          # the very array handed to the caller (see `scribble`)
             return b
 
         def post_processing(self):
@@ -83,6 +84,15 @@ def big_grid_class():
             return 10 ** 6
 
     return BigCountGrid
+
+
+def scribble(op, fstripes):
+    """the caller overwrites, after the evaluation has returned, the right-hand-side array it was given and the stripe lists it
+    passed in: nothing the operation keeps for later steps (new_B, new_grid_coord, old_*) may alias them"""
+    if getattr(op, "_last_b", None) is not None:
+        op._last_b[...] = 7.0
+    for t in fstripes:
+        t[:] = [1.0 - c for c in reversed(t)]          # the mirrored grid: still a valid stripe, but another grid
 
 
 def np_data(data):
@@ -378,7 +388,7 @@ def gen_twostep(ctx, thorough):
         if m.denominator <= 256:
             s2[d].insert(k + 1, m)
     classes = [r.choice([-1, 1]) for _ in range(M)] if r.random() < 0.4 else None
-    return {"kind": "twostep", "dim": dim, "lam": frac_str(r.choice(c16.LAMS)), "classes": classes, "lumped": r.random() < 0.5,
+    return {"kind": "twostep", "dim": dim, "lam": frac_str(r.choice(c16.LAMS + [F(10) ** 8])), "classes": classes, "lumped": r.random() < 0.5,
             "stripes1": [[frac_str(c) for c in s] for s in s1], "stripes2": [[frac_str(c) for c in s] for s in s2],
             "data": [[frac_str(c) for c in x] for x in data]}
 
@@ -395,8 +405,10 @@ def run_twostep_once(case, reuse):
         levels = [[node_level(c) for c in s] for s in st]
         op.initialize_evaluation_dimension_wise(cont)
         lvec = tuple(max(l) for l in levels)
-        op.calculate_operation_dimension_wise(c16.fl(st), levels, ComponentGridInfo(lvec, 1))
+        fst = c16.fl(st)
+        op.calculate_operation_dimension_wise(fst, levels, ComponentGridInfo(lvec, 1))
         out.append(np.array(op.surpluses[lvec]))
+        scribble(op, fst)
         op.post_processing()
     return op, out
 
@@ -460,26 +472,43 @@ def gen_samestep(ctx, thorough):
     if r.random() < 0.6:
         data = [[c if c != 1 else F(r.randint(64, 127), 128) for c in x] for x in data]
     enc = lambda grids: [[[frac_str(c) for c in t] for t in st] for st in grids]
+    # the first grid of every step is evaluated a second time at the end of the step (repeated query on the same object)
+    step1, step2 = step1 + [step1[0]], step2 + [step2[0]]
+    # a sibling operation with its own data works on the same grids, interleaved
+    M2 = r.choice([10, 20])
+    data2 = c16.gen_data(r, dim, step2[0], M2, res=64)
+    data2 = [[c if c != 1 else F(r.randint(32, 63), 64) for c in x] for x in data2]
     return {"kind": "samestep", "dim": dim, "lam": frac_str(r.choice(c16.LAMS)), "lumped": True,
             "classes": [r.choice([-1, 1]) for _ in range(M)] if r.random() < 0.4 else None,
-            "steps": [enc(step1), enc(step2)], "data": [[frac_str(c) for c in x] for x in data]}
+            "steps": [enc(step1), enc(step2)], "data": [[frac_str(c) for c in x] for x in data],
+            "sibling": {"data": [[frac_str(c) for c in x] for x in data2], "lam": frac_str(r.choice(c16.LAMS)),
+                        "classes": [r.choice([-1, 1]) for _ in range(M2)] if r.random() < 0.4 else None}}
 
 
 def run_samestep_once(case, reuse):
+    """returns the operation and its sibling (None for old replay files without one)"""
     from sparseSpACE.ComponentGridInfo import ComponentGridInfo
-    op, g = new_dimwise_op(case, reuse)
-    cont = c16._Container()
     dim = case["dim"]
-    op.init_dimension_wise(g, g, cont, 1, [5] * dim, np.zeros(dim), np.ones(dim))
+    ops = []
+    for c in [case] + ([dict(case, **case["sibling"])] if case.get("sibling") else []):
+        op, g = new_dimwise_op(c, reuse)
+        cont = c16._Container()
+        op.init_dimension_wise(g, g, cont, 1, [5] * dim, np.zeros(dim), np.ones(dim))
+        ops.append((op, cont))
     for step in case["steps"]:
-        op.initialize_evaluation_dimension_wise(cont)
+        for op, cont in ops:
+            op.initialize_evaluation_dimension_wise(cont)
         for n, grid in enumerate(step):
             st = [[F(c) for c in t] for t in grid]
             levels = [[node_level(c) for c in t] for t in st]
             lvec = tuple(len(t) for t in st) + (n,)          # a distinct key per component grid of the step
-            op.calculate_operation_dimension_wise(c16.fl(st), levels, ComponentGridInfo(lvec, 1))
-        op.post_processing()
-    return op
+            for op, cont in ops:                              # interleaved: the sibling works on the same grid right after
+                fst = c16.fl(st)
+                op.calculate_operation_dimension_wise(fst, levels, ComponentGridInfo(lvec, 1))
+                scribble(op, fst)
+        for op, cont in ops:
+            op.post_processing()
+    return ops[0][0], (ops[1][0] if len(ops) > 1 else None)
 
 
 def run_samestep(ctx, drv, case):
@@ -491,18 +520,29 @@ def run_samestep(ctx, drv, case):
         grids = [[[F(c) for c in t] for t in st] for step in case["steps"] for st in step]
         brefs = [b_ref(st, data, signs) for st in grids]
         ops = {}
+        sib = case.get("sibling")
+        if sib:
+            data2 = [[F(c) for c in x] for x in sib["data"]]
+            signs2 = [F(c) for c in sib["classes"]] if sib["classes"] is not None else [F(1)] * len(data2)
+            brefs2 = [b_ref(st, data2, signs2) for st in grids]
+        nfirst = len(case["steps"][0])
         for reuse in (False, True):
-            op = run_samestep_once(case, reuse)
+            op, op2 = run_samestep_once(case, reuse)
             ops[reuse] = op
-            bs = [e[1] for e in op.rec if e[0] == "B"]
-            for n, (b, br) in enumerate(zip(bs, brefs)):
-                if not vec_near(b, br, 1e-12):
-                    k = next(i for i in range(len(br)) if not near(b[i], br[i], 1e-12))
-                    ck.viol("rhs-large-grid-is-sample-mean", dict(tags, reuse=reuse, grid_in_history=n, first_of_step=n in (0, len(case["steps"][0]))),
-                            dict(case, step=n), {"entry": k, "impl": float(b[k]), "sample_mean": str(br[k]), "points": len(br)})
-                    break
-                ctx.count("samestep_grids_%s" % ("ge_200" if len(br) >= 200 else "lt_200"))
+            for who, o, refs in (("operation", op, brefs),) + ((("sibling", op2, brefs2),) if op2 is not None else ()):
+                bs = [e[1] for e in o.rec if e[0] == "B"]
+                for n, (b, br) in enumerate(zip(bs, refs)):
+                    if not vec_near(b, br, 1e-12):
+                        k = next(i for i in range(len(br)) if not near(b[i], br[i], 1e-12))
+                        ck.viol("rhs-large-grid-is-sample-mean",
+                                dict(tags, reuse=reuse, who=who, grid_in_history=n, first_of_step=n in (0, nfirst),
+                                     repeated_grid=n in (nfirst - 1, len(refs) - 1)),
+                                dict(case, step=n), {"entry": k, "impl": float(b[k]), "sample_mean": str(br[k]), "points": len(br)})
+                        break
+                    ctx.count("samestep_grids_%s" % ("ge_200" if len(br) >= 200 else "lt_200"))
             replay_on_model(ck, drv, case, op, reuse, "reuse-%s" % ("on" if reuse else "off"))
+            if op2 is not None and reuse:
+                replay_on_model(ck, drv, dict(case, **sib), op2, reuse, "sibling reuse-on")
         b_on = [e[1] for e in ops[True].rec if e[0] == "B"]
         b_off = [e[1] for e in ops[False].rec if e[0] == "B"]
         for n, (x, y) in enumerate(zip(b_on, b_off)):
